@@ -491,7 +491,8 @@ pub fn run(args: &Args) -> i32 {
             // the library's reader path is known to hang on a directive at end of input; strings are fine
             SHAPE.with(|s| { let mut q = s.borrow_mut(); q.clear(); });
             let m2 = mutated.clone();
-            let r = guarded(move || serde_saphyr::from_str::<ITree>(&m2));
+            // (an untyped target: whatever fails is the text itself - a syntax error, an unknown alias, a repeated key)
+            let r = guarded(move || serde_saphyr::from_str::<Tree>(&m2).map(|_| ITree::I(0)));
             let (hasloc, eprimary, eref, edef, eclass) = err_fields(r);
             if eclass == "NOERROR" { continue; }
             stats.syn_records += 1;
